@@ -19,7 +19,8 @@
     * `fdef f fo` — a filter object (typed or `UnsafeFilter`, fixed relations allowed) is stored
       under label `f`; `freg f` / `funreg f` — `FilterN.Register` / `Unregister`;
     * `query f extra` — a complete iteration of `Query(extra…)` on the object under `f`;
-    * `reset` — `World.Reset` (see the finding below).
+    * `reset` — `World.Reset` (section 4): the cache is emptied, every filter object unregistered,
+      every relation table freed; a new epoch of handles begins.
 
   Vocabulary:
     * `HInv2 s fl` — the inductive invariant: `RelRefine.HInv` (⊇ `TInv` ⊇ `SInv`, `RInv`, `IdxInv`,
@@ -47,14 +48,20 @@
   `GetTables` / `Matches`), the latter leaving the world locked — shown on a concrete world.  The
   typed API cannot build such objects.
 
-  FINDING (`reset_breaks_invariant`, `reset_step_partial`).  `Reset` is NOT covered as a step of
-  histories: the joint invariant `TInv` of the relation fragment contains `pool.stale = []`, and
-  `Reset` keeps the invalidated handles in the memory behind the pool slice, so `TInv` is false
-  after the history `new; reset`.  What IS proved about the step `Reset` from any state of the
-  machine: it succeeds, empties the specification, re-establishes every other component of `TInv`
-  and the WHOLE filter-side invariant — the cache is empty, every filter object is unregistered,
-  so nothing is left that could diverge — and `HInv2` holds again if `pool.stale = []`.  The
-  theorems over histories therefore assume `Reset`-free histories.
+  `Reset` (section 4; `reset_step`, `reset_effect`, `reset_history_invariant`).  `Reset` IS a step
+  of the histories: it succeeds, empties the specification (a new epoch of handles: nothing counts
+  as issued, every handle issued before is dead, no ID is indexed to a table), re-establishes the
+  joint invariant `TInv` with an empty free list and the WHOLE filter-side invariant — the cache
+  is empty, every filter object is unregistered, so nothing is left that could diverge — and
+  `HInv2` holds again.  `Reset` keeps the invalidated handles (generation `MaxUint32`) in the
+  memory behind the pool slice (`Pool.stale`; defect D14 repaired); `TInv` only demands that this
+  memory holds invalidated handles.  (An earlier version of `TInv` demanded `pool.stale = []`
+  and was false after the history `new; reset`.)  FINDING: because of that memory, a handle
+  FORGED with an ID behind the slice and generation `MaxUint32` tests alive after a `Reset`;
+  the operation theorems of the relation development therefore speak about handles whose ID lies
+  inside the pool slice (`e.id < w.pool.ents.length`) — every handle the world issued does
+  (`Ark.RelRefine.HInv.issued_in`), and no issued handle carries that generation
+  (`issued_gen_bound`).
 -/
 import Ark.Proofs.RelRefine2Spec
 
@@ -85,11 +92,11 @@ theorem freeTable_keeps_cache {w : World} (h : SInvMid w) {a tid : Nat}
     created or recycled), never fails and keeps the cache invariant -/
 theorem removeEntity_keeps_cache {w : World} {fl : List Nat} (h : TInv w fl)
     (hl : w.isLocked = false) (hno : ∀ (evt : Nat), w.obs.hasObservers evt = false) {g : Ent}
-    (h2 : 2 ≤ g.id) (hnf : g.id ∉ fl) (ha : w.alive g = true)
+    (h2 : 2 ≤ g.id) (hnf : g.id ∉ fl) (ha : w.alive g = true) (hsl : g.id < w.pool.ents.length)
     (hfew : w.tables.length + w.relationArchetypes.length + 1 ≤ maxU32)
     (hrows : 2 * w.entities.length < 2 ^ 32) :
     ∃ (w3 : World), opRemoveEntity run g w = .ok () w3 ∧ CKeep w w3 :=
-  opRemoveEntity_ckeep run h hl hno h2 hnf ha hfew hrows
+  opRemoveEntity_ckeep run h hl hno h2 hnf ha hsl hfew hrows
 
 /-- `NewEntity(ids…, rels…)` -/
 theorem newEntity_keeps_cache (p : Path) {w : World} {fl : List Nat}
@@ -102,11 +109,12 @@ theorem newEntity_keeps_cache (p : Path) {w : World} {fl : List Nat}
 /-- `SetRelations(e, rels…)` -/
 theorem setRelations_keeps_cache (p : Path) {w : World} {fl : List Nat}
     (h : TInv w fl) (hl : w.isLocked = false) (hno : ∀ (evt : Nat), w.obs.hasObservers evt = false)
-    {e : Ent} (h2 : 2 ≤ e.id) (hnf : e.id ∉ fl) (ha : w.alive e = true) {mapperIds : List Comp}
+    {e : Ent} (h2 : 2 ≤ e.id) (hnf : e.id ∉ fl) (ha : w.alive e = true)
+    (hsl : e.id < w.pool.ents.length) {mapperIds : List Comp}
     {rels : List RelID} (hne : rels.isEmpty = false) (hnd : (rels.map (·.comp)).Nodup)
     (hhas : ∀ (r : RelID), r ∈ rels → (targetOf w e.id r.comp).isSome = true)
     {w' : World} (hok : opSetRelations run p e mapperIds rels w = .ok () w') : CKeep w w' :=
-  opSetRelations_ckeep run p h hl hno h2 hnf ha hne hnd hhas hok
+  opSetRelations_ckeep run p h hl hno h2 hnf ha hsl hne hnd hhas hok
 
 /-- every accepted operation of the relation machine (`reg`, `new p`, `add p`, `rem p`,
     `setrel p`, `set`, `del`) keeps the filter-side state -/
@@ -131,22 +139,22 @@ theorem unregister_keeps {w : World} {fl : List Nat} (h : FInvR w) (ht : TInv w 
 
 /-! ## 2. the invariant along histories -/
 
-/-- one step keeps the invariant (every operation but `Reset`) -/
+/-- one step keeps the invariant (every operation, `Reset` included) -/
 theorem step2_keeps {s : St} {fl : List Nat} (H : HInv2 s fl)
     (hfew : s.w.tables.length + s.w.relationArchetypes.length + 1 ≤ maxU32)
-    (hent : 2 * s.w.entities.length < 2 ^ 32) (op : Op2) (hnr : op.isReset = false) :
+    (hent : 2 * s.w.entities.length < 2 ^ 32) (op : Op2) :
     ∃ fl', HInv2 (step2 run s op) fl' :=
-  (step2_inv run H hfew hent op hnr).1
+  (step2_inv run H hfew hent op).1
 
-/-- **the invariant holds after every `Reset`-free history** -/
-theorem reach2_invariant (ops : List Op2) (hlen : ops.length < 2 ^ 16)
-    (hnr : ∀ op ∈ ops, op.isReset = false) : ∃ fl, HInv2 (reach2 run cap rel ops) fl :=
-  reach2_inv run cap rel ops hlen hnr
+/-- **the invariant holds after every history** (`Reset` anywhere in it) -/
+theorem reach2_invariant (ops : List Op2) (hlen : ops.length < 2 ^ 16) :
+    ∃ fl, HInv2 (reach2 run cap rel ops) fl :=
+  reach2_inv run cap rel ops hlen
 
-/-- the cache invariant (I11) holds after every `Reset`-free history -/
-theorem reach2_cache_invariant (ops : List Op2) (hlen : ops.length < 2 ^ 16)
-    (hnr : ∀ op ∈ ops, op.isReset = false) : CacheInv (reach2 run cap rel ops).w :=
-  reach2_cacheInv run cap rel ops hlen hnr
+/-- the cache invariant (I11) holds after every history -/
+theorem reach2_cache_invariant (ops : List Op2) (hlen : ops.length < 2 ^ 16) :
+    CacheInv (reach2 run cap rel ops).w :=
+  reach2_cacheInv run cap rel ops hlen
 
 /-- `Shrink` as a step keeps the invariant (empty relation tables are freed and leave the cache) -/
 theorem shrink_keeps {s : St} {fl : List Nat} (H : HInv2 s fl)
@@ -163,7 +171,7 @@ theorem shrink_keeps {s : St} {fl : List Nat} (H : HInv2 s fl)
     object both succeed, leave the same world, are exact (`Observed`) and visit the same
     entities. -/
 theorem cached_agrees (ops : List Op2) (hlen : ops.length < 2 ^ 16)
-    (hnr : ∀ op ∈ ops, op.isReset = false) {f : Nat} {fo : FilterObj} {id : Nat}
+    {f : Nat} {fo : FilterObj} {id : Nat}
     (hfind : AL.find? (reach2 run cap rel ops).w.filters f = some fo) (hc : fo.cache = some id)
     {extra : List RelID} (hx : ExtraAdmissible (reach2 run cap rel ops).w fo extra) :
     ∃ (ce : CacheEntry), (reach2 run cap rel ops).w.cacheEntry? id = some ce ∧
@@ -180,7 +188,7 @@ theorem cached_agrees (ops : List Op2) (hlen : ops.length < 2 ^ 16)
         Observed (reach2 run cap rel ops).w { fo with cache := none } extra
           ((reach2 run cap rel ops).w.withLocks l1) qu visitsU ∧
         (visits.map (·.e)).Perm (visitsU.map (·.e)) :=
-  reach2_cached_agrees run cap rel ops hlen hnr hfind hc hx
+  reach2_cached_agrees run cap rel ops hlen hfind hc hx
 
 /-- the same at any state satisfying the invariant -/
 theorem cached_agrees_at {s : St} {fl : List Nat} (H : HInv2 s fl) {f : Nat} {fo : FilterObj}
@@ -200,18 +208,53 @@ theorem cached_agrees_at {s : St} {fl : List Nat} (H : HInv2 s fl) {f : Nat} {fo
 
 /-! ## 4. `Reset` -/
 
-/-- **`Reset` as a step, everything but `pool.stale = []`** (`_partial`; the full statement
-    `∃ fl', HInv2 (step2 run s .reset) fl'` is false in general, `reset_breaks_invariant`) -/
+/-- **`Reset` as a step**: from any state of the machine it succeeds; the state afterwards is
+    `⟨resetW w, [], ⟨[], zst, isRel⟩⟩` (specification emptied, nothing issued: a new epoch); the
+    joint invariant `TInv` holds with an empty free list, the WHOLE filter-side invariant holds
+    (cache empty, every filter object unregistered), `HInv2` holds; no ID is indexed to a table;
+    no handle with an unreserved ID and a generation other than `MaxUint32` is alive -/
+theorem reset_step {s : St} {fl : List Nat} (H : HInv2 s fl) :
+    ResetStepPost s (step2 run s .reset) :=
+  step2_reset_spec run H
+
+/-- the former name of `reset_step` (it used to be partial: `HInv2` afterwards only under
+    `pool.stale = []`) -/
 theorem reset_step_partial {s : St} {fl : List Nat} (H : HInv2 s fl) :
     ResetStepPost s (step2 run s .reset) :=
-  step2_reset_partial run H
+  step2_reset_spec run H
 
-/-- **the finding**: after the history `new; reset` the pool keeps the invalidated handle behind
-    its slice; no free list makes `TInv` true there -/
-theorem reset_breaks_invariant :
-    (reach2 noRun 4 4 resetDemo).w.pool.stale = [⟨2, maxU32⟩] ∧
-    ¬ ∃ (fl : List Nat), TInv (reach2 noRun 4 4 resetDemo).w fl :=
-  reset_breaks_tinv
+/-- **`Reset` keeps the invariant of the machine** -/
+theorem reset_keeps_invariant {s : St} {fl : List Nat} (H : HInv2 s fl) :
+    HInv2 (step2 run s .reset) [] :=
+  (step2_reset_spec run H).hinv
+
+/-- **no handle that was issued carries the sentinel generation** `MaxUint32` (the generation
+    `Reset` writes into the memory it keeps): generations are bounded by the length of the
+    history -/
+theorem issued_gen_bound (ops : List Op2) (hlen : ops.length < 2 ^ 16) :
+    ∀ (h : Ent), h ∈ (reach2 run cap rel ops).issued → h.gen ≤ ops.length ∧ h.gen ≠ maxU32 :=
+  reach2_issued_gen run cap rel ops hlen
+
+/-- **`Reset` ends the epoch**: after `ops ++ [reset]` the specification has no entity, the
+    registry is kept, nothing counts as issued, no ID is indexed to a table (no component set,
+    value or relation target can be read), the cache is empty, every filter object is
+    unregistered, and every handle issued before is dead -/
+theorem reset_effect (ops : List Op2) (hlen : ops.length + 1 < 2 ^ 16) :
+    (reach2 run cap rel (ops ++ [.reset])).ss.ents = [] ∧
+    (reach2 run cap rel (ops ++ [.reset])).ss.zst = (reach2 run cap rel ops).ss.zst ∧
+    (reach2 run cap rel (ops ++ [.reset])).ss.isRel = (reach2 run cap rel ops).ss.isRel ∧
+    (reach2 run cap rel (ops ++ [.reset])).issued = [] ∧
+    (reach2 run cap rel (ops ++ [.reset])).w.kinds = (reach2 run cap rel ops).w.kinds ∧
+    (∀ (i : Nat), Ark.Props.C01World.compsOf (reach2 run cap rel (ops ++ [.reset])).w i = none ∧
+      (∀ (c : Comp), Ark.Props.C01World.valOf (reach2 run cap rel (ops ++ [.reset])).w i c = none) ∧
+      ∀ (c : Comp), targetOf (reach2 run cap rel (ops ++ [.reset])).w i c = none) ∧
+    ((reach2 run cap rel (ops ++ [.reset])).w.cache.indices = [] ∧
+      (reach2 run cap rel (ops ++ [.reset])).w.cache.filters = []) ∧
+    (∀ (f : Nat) (fo : FilterObj),
+      AL.find? (reach2 run cap rel (ops ++ [.reset])).w.filters f = some fo → fo.cache = none) ∧
+    ∀ (h : Ent), h ∈ (reach2 run cap rel ops).issued →
+      (reach2 run cap rel (ops ++ [.reset])).w.alive h = false :=
+  reset_effect2 run cap rel ops hlen
 
 /-! ## 5. non-vacuity: a concrete history
 
@@ -284,8 +327,8 @@ theorem extraAdmissible_of_check {w : World} {fo : FilterObj} {extra : List RelI
     · rw [ht] at h2; cases h2
     · exact h2 r hr
 
-/-- the history is within the bound and `Reset`-free -/
-example : demoOps.length < 2 ^ 16 ∧ ∀ op ∈ demoOps, op.isReset = false := by decide +kernel
+/-- the history is within the bound -/
+example : demoOps.length < 2 ^ 16 := by decide +kernel
 
 /-- after the three children were created: both relation tables are cached — table 1 by the entry
     with the fixed relation `ChildOf ↦ 2.0` and by the entry without, table 2 only by the latter;
@@ -357,15 +400,14 @@ example :
         (reach2 noRun 2 2 demoOps).w = .ok visitsU ((reach2 noRun 2 2 demoOps).w.withLocks l2) ∧
       (visits.map (·.e)).Perm (visitsU.map (·.e))) := by
   have hlen : demoOps.length < 2 ^ 16 := by decide
-  have hnr : ∀ op ∈ demoOps, op.isReset = false := by decide +kernel
   constructor
   · obtain ⟨ce, h1, _, _, _, _, l2, _, _, visits, visitsU, d1, d2, _, _, hp⟩ :=
-      cached_agrees noRun 2 2 demoOps hlen hnr (f := 1)
+      cached_agrees noRun 2 2 demoOps hlen (f := 1)
         (fo := foAt (reach2 noRun 2 2 demoOps).w 1) (id := 1) (extra := [⟨0, p3⟩])
         (by decide +kernel) (by decide +kernel) (extraAdmissible_of_check (by decide +kernel))
     exact ⟨ce, l2, visits, visitsU, h1, d1, d2, hp⟩
   · obtain ⟨ce, h1, _, _, _, _, l2, _, _, visits, visitsU, d1, d2, _, _, hp⟩ :=
-      cached_agrees noRun 2 2 demoOps hlen hnr (f := 2)
+      cached_agrees noRun 2 2 demoOps hlen (f := 2)
         (fo := foAt (reach2 noRun 2 2 demoOps).w 2) (id := 2) (extra := [])
         (by decide +kernel) (by decide +kernel) (extraAdmissible_of_check (by decide +kernel))
     exact ⟨ce, l2, visits, visitsU, h1, d1, d2, hp⟩
@@ -397,15 +439,169 @@ example :
     2 * (reach2 noRun 2 2 (demoOps.take 16)).w.entities.length < 2 ^ 32 := by
   decide +kernel
 
-/-- `Reset` in the final state (`reset_step_partial`): the cache is emptied and every filter
-    object is unregistered; the pool keeps the invalidated handles behind its slice -/
+/-! ### a history with `Reset`: relation tables recycled in the new epoch
+
+The history above, then `Reset` — the cache is emptied, the three filter objects are unregistered,
+both relation tables are freed, the five handles of the pool stay behind its slice with generation
+`MaxUint32` — then: two parents (the pool re-issues `2.0` and `3.0`, the handles of the ended
+epoch), filters 1 and 2 registered again (the cache's ID pool starts afresh: IDs 0 and 1), a child
+of `2.0` (its table RECYCLES table 1), a child of `3.0` (RECYCLES table 2), a child of the zero
+entity (a third relation table), a query through the cache, the removal of the target `2.0`
+(table 1 freed again, its child moves to the zero-target table 3), a query. -/
+
+def resetOps : List Op2 := demoOps ++
+  [.reset,
+   .base (.new .unsafe_ [] [] []), .base (.new .unsafe_ [] [] []),
+   .freg 1, .freg 2,
+   .base (.new .typed [0, 1] [(1, 7)] [⟨0, p1⟩]),
+   .base (.new .unsafe_ [0, 1] [(1, 9)] [⟨0, p2⟩]),
+   .base (.new .map1 [0, 1] [(1, 3)] [⟨0, Ent.zero⟩]),
+   .query 1 [⟨0, p1⟩],
+   .base (.del p1),
+   .query 2 []]
+
+/-- `Reset` in the final state of `demoOps` (`reset_step`): every table is empty, both relation
+    tables are free; the cache is emptied and every filter object is unregistered; the
+    specification is empty and nothing counts as issued; the pool keeps the five invalidated
+    handles behind its slice; every handle issued before is dead -/
 example :
-    cacheSummary (step2 noRun (reach2 noRun 2 2 demoOps) .reset).w = [] ∧
-    ((step2 noRun (reach2 noRun 2 2 demoOps) .reset).w.filters.map fun p => (p.1, p.2.cache)) =
+    summary (reach2 noRun 2 2 (resetOps.take 22)).w =
+      [(0, 0, 0, false, []), (1, 1, 0, true, [p3, Ent.zero]),
+       (2, 1, 0, true, [Ent.zero, Ent.zero])] ∧
+    cacheSummary (reach2 noRun 2 2 (resetOps.take 22)).w = [] ∧
+    ((reach2 noRun 2 2 (resetOps.take 22)).w.filters.map fun p => (p.1, p.2.cache)) =
       [(0, none), (1, none), (2, none)] ∧
-    (step2 noRun (reach2 noRun 2 2 demoOps) .reset).ss.ents = [] ∧
-    (step2 noRun (reach2 noRun 2 2 demoOps) .reset).w.pool.stale.length = 5 := by
+    (reach2 noRun 2 2 (resetOps.take 22)).ss.ents = [] ∧
+    (reach2 noRun 2 2 (resetOps.take 22)).issued = [] ∧
+    (reach2 noRun 2 2 (resetOps.take 22)).w.pool.stale =
+      [⟨2, maxU32⟩, ⟨3, maxU32⟩, ⟨4, maxU32⟩, ⟨5, maxU32⟩, ⟨6, maxU32⟩] ∧
+    (reach2 noRun 2 2 (resetOps.take 21)).issued =
+      [⟨6, 1⟩, ⟨2, 1⟩, ⟨6, 0⟩, ⟨5, 0⟩, ⟨4, 0⟩, ⟨3, 0⟩, ⟨2, 0⟩] ∧
+    (reach2 noRun 2 2 (resetOps.take 21)).issued.map (reach2 noRun 2 2 (resetOps.take 22)).w.alive =
+      [false, false, false, false, false, false, false] := by
   decide +kernel
+
+/-- **`Reset` inside a history** (this replaces the former finding `reset_breaks_invariant`): in
+    the new epoch the child of the re-issued parent `2.0` sits in the RECYCLED relation table 1,
+    cached by the re-registered filter 1 (cache ID 0 again); two invalidated handles are still
+    behind the pool slice — and the joint invariant `TInv` and the invariant `HInv2` of the
+    machine hold there, as they do in the final state -/
+theorem reset_history_invariant :
+    summary (reach2 noRun 2 2 (resetOps.take 27)).w =
+      [(0, 0, 2, false, []), (1, 1, 1, false, [p1, Ent.zero]),
+       (2, 1, 0, true, [Ent.zero, Ent.zero])] ∧
+    cacheSummary (reach2 noRun 2 2 (resetOps.take 27)).w =
+      [(0, [], [1]), (1, [⟨0, Ent.zero⟩], [])] ∧
+    (reach2 noRun 2 2 (resetOps.take 27)).w.pool.stale = [⟨5, maxU32⟩, ⟨6, maxU32⟩] ∧
+    (∃ (fl : List Nat), TInv (reach2 noRun 2 2 (resetOps.take 27)).w fl) ∧
+    (∃ (fl : List Nat), HInv2 (reach2 noRun 2 2 (resetOps.take 27)) fl) ∧
+    (∃ (fl : List Nat), HInv2 (reach2 noRun 2 2 resetOps) fl) := by
+  obtain ⟨fl, H⟩ := reach2_invariant noRun 2 2 (resetOps.take 27) (by decide +kernel)
+  exact ⟨by decide +kernel, by decide +kernel, by decide +kernel, ⟨fl, H.base.tinv⟩, ⟨fl, H⟩,
+    reach2_invariant noRun 2 2 resetOps (by decide +kernel)⟩
+
+/-- the final state of the history with `Reset`: table 2 recycled for the child of `3.0`, table 1
+    freed again by the removal of `2.0` (its child moved to the zero-target table 3); the memory
+    behind the pool slice is used up; the specification has the entities of the new epoch only -/
+example :
+    summary (reach2 noRun 2 2 resetOps).w =
+      [(0, 0, 1, false, []), (1, 1, 0, true, [p1, Ent.zero]), (2, 1, 1, false, [p2, Ent.zero]),
+       (3, 1, 2, false, [Ent.zero, Ent.zero])] ∧
+    cacheSummary (reach2 noRun 2 2 resetOps).w = [(0, [], [3, 2]), (1, [⟨0, Ent.zero⟩], [3])] ∧
+    ((reach2 noRun 2 2 resetOps).w.filters.map fun p => (p.1, p.2.cache)) =
+      [(0, none), (1, some 0), (2, some 1)] ∧
+    (reach2 noRun 2 2 resetOps).w.pool.stale = [] ∧
+    (reach2 noRun 2 2 resetOps).issued = [⟨6, 0⟩, ⟨5, 0⟩, ⟨4, 0⟩, ⟨3, 0⟩, ⟨2, 0⟩] ∧
+    (reach2 noRun 2 2 resetOps).ss.ents.map (·.1) = [⟨6, 0⟩, ⟨5, 0⟩, ⟨4, 0⟩, ⟨3, 0⟩] := by
+  refine ⟨?_, ?_, ?_, ?_, ?_, ?_⟩ <;> decide +kernel
+
+/-- `cached_agrees` applied after the `Reset`: the hypotheses hold for filter 1 (registered again,
+    per-call relation `ChildOf ↦ 2.0`) before the removal of `2.0`, and for filter 2 in the final
+    state; cached and uncached iteration visit the same entities -/
+example :
+    (AL.find? (reach2 noRun 2 2 (resetOps.take 29)).w.filters 1).map (·.cache) = some (some 0) ∧
+    extraAdmB (reach2 noRun 2 2 (resetOps.take 29)).w (foAt (reach2 noRun 2 2 (resetOps.take 29)).w 1)
+      [⟨0, p1⟩] = true ∧
+    visitsOf (foAt (reach2 noRun 2 2 (resetOps.take 29)).w 1) [⟨0, p1⟩]
+      (reach2 noRun 2 2 (resetOps.take 29)).w = some [⟨4, 0⟩] ∧
+    visitsOf { foAt (reach2 noRun 2 2 (resetOps.take 29)).w 1 with cache := none } [⟨0, p1⟩]
+      (reach2 noRun 2 2 (resetOps.take 29)).w = some [⟨4, 0⟩] ∧
+    (AL.find? (reach2 noRun 2 2 resetOps).w.filters 2).map (·.cache) = some (some 1) ∧
+    extraAdmB (reach2 noRun 2 2 resetOps).w (foAt (reach2 noRun 2 2 resetOps).w 2) [] = true ∧
+    visitsOf (foAt (reach2 noRun 2 2 resetOps).w 2) [] (reach2 noRun 2 2 resetOps).w =
+      some [⟨6, 0⟩, ⟨4, 0⟩] ∧
+    visitsOf { foAt (reach2 noRun 2 2 resetOps).w 2 with cache := none } []
+      (reach2 noRun 2 2 resetOps).w = some [⟨6, 0⟩, ⟨4, 0⟩] := by
+  decide +kernel
+
+/-! ### finding: after a `Reset`, a forged handle behind the pool slice
+
+`Alive` is an unchecked read of the pool's memory, and `Reset` keeps the invalidated handles
+(generation `MaxUint32`) behind the re-sliced pool.  So after `reg; new; reset` the handle
+`2.MaxUint32` — which the world never issued (`issued_gen_bound`) — tests alive although its ID
+lies behind the pool slice (and behind the entity index and the target flags).  This is why the
+operation theorems of the relation development (`Ark.Props.C04World`) speak about handles whose
+ID lies inside the pool slice, for the entity and for the relation targets named: -/
+
+def forgeOps : List Op2 := [.base (.reg 0 true true), .base (.new .unsafe_ [] [] []), .reset]
+
+/-- the forged handle -/
+def forged : Ent := ⟨2, maxU32⟩
+
+/-- **the hypothesis "the targets' IDs lie inside the pool slice" of `C04World.newEntity_assigns_targets`
+    is necessary**: in the world after `reg; new; reset` the joint invariant holds, the forged
+    handle tests alive, and `NewEntity` with the forged handle as relation target is ACCEPTED (on
+    the typed path too: the pre-validation asks `Alive`); the new entity gets the ID of the forged
+    handle, whose slot now holds generation 0 — the table of the new entity targets a handle that
+    is neither zero nor alive, and the joint invariant is broken -/
+theorem forged_target_after_reset :
+    (∃ (fl : List Nat), TInv (reach2 noRun 2 2 forgeOps).w fl) ∧
+    (reach2 noRun 2 2 forgeOps).w.alive forged = true ∧
+    (reach2 noRun 2 2 forgeOps).w.pool.ents.length = 2 ∧
+    panicOf (opNewEntity noRun .typed [0] [] [⟨0, forged⟩] (reach2 noRun 2 2 forgeOps).w) = none ∧
+    summary (opNewEntity noRun .typed [0] [] [⟨0, forged⟩] (reach2 noRun 2 2 forgeOps).w).state =
+      [(0, 0, 0, false, []), (1, 1, 1, false, [forged])] ∧
+    (opNewEntity noRun .typed [0] [] [⟨0, forged⟩] (reach2 noRun 2 2 forgeOps).w).state.alive forged
+      = false ∧
+    ¬ ∃ (fl : List Nat),
+      TInv (opNewEntity noRun .typed [0] [] [⟨0, forged⟩] (reach2 noRun 2 2 forgeOps).w).state fl := by
+  obtain ⟨fl, H⟩ := reach2_invariant noRun 2 2 forgeOps (by decide +kernel)
+  refine ⟨⟨fl, H.base.tinv⟩, by decide +kernel, by decide +kernel, by decide +kernel,
+    by decide +kernel, by decide +kernel, ?_⟩
+  rintro ⟨fl', h⟩
+  have := h.rel.aux.targets 1
+    ((opNewEntity noRun .typed [0] [] [⟨0, forged⟩] (reach2 noRun 2 2 forgeOps).w).state.tbl 1)
+    (by decide +kernel) (by decide +kernel) 0 (by decide +kernel)
+  revert this
+  decide +kernel
+
+/-- **the hypothesis "the entity's ID lies inside the pool slice" of `C04World.removeEntity_post` is
+    necessary**: `RemoveEntity` of the forged handle is not rejected (`Alive` answers yes; in Go the
+    index lookup behind the slice is a runtime panic, the model reads the default entry) and puts
+    an ID behind the slice on the free list — the pool invariant is broken -/
+theorem forged_entity_after_reset :
+    panicOf (opRemoveEntity noRun forged (reach2 noRun 2 2 forgeOps).w) = none ∧
+    (opRemoveEntity noRun forged (reach2 noRun 2 2 forgeOps).w).state.pool.available = 1 ∧
+    (opRemoveEntity noRun forged (reach2 noRun 2 2 forgeOps).w).state.pool.next = 2 ∧
+    (opRemoveEntity noRun forged (reach2 noRun 2 2 forgeOps).w).state.pool.ents.length = 2 ∧
+    ¬ ∃ (fl : List Nat), TInv (opRemoveEntity noRun forged (reach2 noRun 2 2 forgeOps).w).state fl := by
+  refine ⟨by decide +kernel, by decide +kernel, by decide +kernel, by decide +kernel, ?_⟩
+  rintro ⟨fl', h⟩
+  have hp := h.link.pool
+  have h1 := hp.avail
+  have h2 := hp.avail_le
+  have e1 : (opRemoveEntity noRun forged (reach2 noRun 2 2 forgeOps).w).state.pool.available = 1 := by
+    decide +kernel
+  have e2 : (opRemoveEntity noRun forged (reach2 noRun 2 2 forgeOps).w).state.pool.ents.length = 2 := by
+    decide +kernel
+  rw [e1] at h1
+  rw [e2] at h2
+  omega
+
+/-- after the history `new; reset` the pool keeps the invalidated handle behind its slice -/
+theorem reset_keeps_memory :
+    (reach2 Ark.RelRefine2.noRun 4 4 resetDemo).w.pool.stale = [⟨2, maxU32⟩] :=
+  reset_keeps_stale
 
 /-! ## 6. the guards `guardF` / `guardQ` are needed
 
